@@ -474,7 +474,7 @@ func panicSite(logs string) string {
 	if i < 0 {
 		return "unknown"
 	}
-	re := regexp.MustCompile(`github\.com/glebziz/fs_db(?:/[\w./]+)?\.[\w.()*\[\]]+`)
+	re := regexp.MustCompile(`github\.com/glebziz/fs_db(?:/[\w./-]+)?\.(?:\(\*?\w+(?:\[[^\]]*\])?\)\.)?\w+(?:\.func\d+)*`)
 	m := re.FindString(logs[i:])
 	if m == "" {
 		return "no-fs_db-frame"
